@@ -36,19 +36,23 @@ theorem C02_required_containers :
     · simp
     · next h => intro e; rw [e] at h; simp at h
 
+theorem preNHS_none (u : Uris) (parent : Option String) (fuel : Nat) (st : GenState) :
+    preNHS u parent (fuel + 2) none none none st = (.ok [], st) := by
+  simp [preNHS, optList]
+
 /-- a block item with no num, heading, subheading or children still gets a `<p/>` -/
 theorem C02_block_nonempty (u : Uris) (fuel : Nat) (name : String) (st : GenState) :
-    (itemToXml u none (fuel + 2) (.node "block" name none (some []) none none none none none) st).1 =
+    (itemToXml u none (fuel + 3) (.node "block" name none (some []) none none none none none) st).1 =
       .ok (.elem name [] [.elem "p" [] []]) := by
-  simp [itemToXml, optList, itemsToXml, mkElem, makerCheck, mergeText]
+  simp [itemToXml, preNHS_none, itemsToXml, mkElem, makerCheck, mergeText]
 
 /-- a hierarchical element whose children are all non-hierarchical: `content` wraps them all -/
 theorem C02_hier_content_wrapped (u : Uris) (fuel : Nat) (name : String) (kids : List Item) (st : GenState)
     (h : kids.all (fun k => !checkHier k) = true) (ks : List Xml) (st' : GenState)
-    (hk : itemsToXml u none (fuel + 1) kids st = (.ok ks, st')) (hs : makerCheck [] ks = none) :
-    (itemToXml u none (fuel + 2) (.node "hier" name none (some kids) none none none none none) st).1 =
+    (hk : itemsToXml u none (fuel + 2) kids st = (.ok ks, st')) (hs : makerCheck [] ks = none) :
+    (itemToXml u none (fuel + 3) (.node "hier" name none (some kids) none none none none none) st).1 =
       mkElem name [] [.elem "content" [] (mergeText ks)] := by
-  simp only [itemToXml, Option.getD, h, if_true, hk, optList, mkElem]
+  simp only [itemToXml, Option.getD, h, if_true, hk, preNHS_none, mkElem]
   simp only [Except.bind, hs, Except.map, List.nil_append]
 
 def aknHierNames : List String :=
